@@ -236,6 +236,15 @@ func init() {
 		}
 		return strings.Join(ss, " ")
 	})
+	// rangestop <sid> <n>: Range that stops after n entries (what the LRU sampling does)
+	register("rangestop", func(a []string) string {
+		n, seen := atoi(a[1]), 0
+		stores[a[0]].Range(func(hkey uint64, e storage.Entry) bool {
+			seen++
+			return seen < n
+		})
+		return "ok"
+	})
 	register("rangehkey", func(a []string) string {
 		var hs []uint64
 		stores[a[0]].RangeHKey(func(hkey uint64) bool {
